@@ -45,20 +45,20 @@ Proof.
   intros. reflexivity.
 Qed.
 
-Lemma val_struct_q_elem : forall q pk idx ns n attrs kids,
-  val_struct_q q pk idx (Elem ns n attrs kids)
+Lemma val_struct_q_elem : forall q fx pk idx ns n attrs kids,
+  val_struct_q q fx pk idx (Elem ns n attrs kids)
   = if negb (String.eqb ns MATHML_NS) then []
-    else let sub := val_struct_kids_q q (mkids kids) kids 0 in
-         let r := val_node arity_fix_committed pk idx n attrs kids sub in
-         if q && qual_class n then match r with [] => sub | _ => r end else r.
+    else let sub := val_struct_kids_q q fx (mkids kids) kids 0 in
+         let r := val_node fx pk idx n attrs kids sub in
+         if q && is_qualifier n then match r with [] => sub | _ => r end else r.
 Proof.
   intros. cbn [val_struct_q]. destruct (negb (String.eqb ns MATHML_NS)); [reflexivity|].
   assert (H : forall ks i,
              (fix go (ks : list xml) (i : nat) {struct ks} : list rule :=
                 match ks with
                 | [] => []
-                | k :: r => if is_mathml k then val_struct_q q (mkids kids) i k ++ go r (S i) else go r i
-                end) ks i = val_struct_kids_q q (mkids kids) ks i).
+                | k :: r => if is_mathml k then val_struct_q q fx (mkids kids) i k ++ go r (S i) else go r i
+                end) ks i = val_struct_kids_q q fx (mkids kids) ks i).
   { induction ks as [|k r IH]; intro i; [reflexivity|]. cbn [val_struct_kids_q]. rewrite !IH. reflexivity. }
   rewrite H. reflexivity.
 Qed.
@@ -140,16 +140,16 @@ Qed.
 
 (** the qualifier classes do not look at [sub] *)
 Lemma val_node_qual : forall fx pk idx n attrs kids sub,
-  qual_class n = true -> val_node fx pk idx n attrs kids sub = val_node fx pk idx n attrs kids [].
+  is_qualifier n = true -> val_node fx pk idx n attrs kids sub = val_node fx pk idx n attrs kids [].
 Proof.
-  intros. unfold qual_class in H. unfold val_node. destruct (vclass_of n); try discriminate H; reflexivity.
+  intros. unfold is_qualifier in H. unfold val_node. destruct (vclass_of n); try discriminate H; reflexivity.
 Qed.
 
-Lemma val_struct_kids_q_nil : forall q mk ks i,
-  val_struct_kids_q q mk ks i = [] <->
-  forall j k, nth_error (mkids ks) j = Some k -> val_struct_q q mk (i + j) k = [].
+Lemma val_struct_kids_q_nil : forall q fx mk ks i,
+  val_struct_kids_q q fx mk ks i = [] <->
+  forall j k, nth_error (mkids ks) j = Some k -> val_struct_q q fx mk (i + j) k = [].
 Proof.
-  intros q mk ks. induction ks as [|k r IH]; intro i; cbn [val_struct_kids_q].
+  intros q fx mk ks. induction ks as [|k r IH]; intro i; cbn [val_struct_kids_q].
   - split; [intros _ j k H; destruct j; discriminate H | reflexivity].
   - unfold mkids. cbn [filter]. destruct (is_mathml k) eqn:E.
     + rewrite app_nil_iff, IH. split.
@@ -171,13 +171,13 @@ Proof.
   intros. inversion H; subst; [left; assumption | right; repeat split; assumption].
 Qed.
 
-Lemma val_struct_q_nil : forall q x pk i, val_struct_q q pk i x = [] <-> StructOK q pk i x.
+Lemma val_struct_q_nil : forall q x pk i, val_struct_q q arity_fix_committed pk i x = [] <-> StructOK q pk i x.
 Proof.
   intros q. induction x as [ns n attrs kids IH|s|s] using xml_ind3; intros pk i.
   - rewrite val_struct_q_elem. destruct (String.eqb ns MATHML_NS) eqn:Ens; cbn [negb].
     2:{ split; [intros _; apply S_other; simpl; exact Ens | reflexivity]. }
     apply String.eqb_eq in Ens. subst ns. cbv zeta.
-    assert (Hsub : val_struct_kids_q q (mkids kids) kids 0 = [] <->
+    assert (Hsub : val_struct_kids_q q arity_fix_committed (mkids kids) kids 0 = [] <->
                    forall j k, nth_error (mkids kids) j = Some k -> StructOK q (mkids kids) j k).
     { rewrite val_struct_kids_q_nil. split; intros H j k Hj.
       - assert (Hin : In k kids).
@@ -186,19 +186,19 @@ Proof.
       - assert (Hin : In k kids).
         { apply nth_error_In in Hj. unfold mkids in Hj. apply filter_In in Hj. tauto. }
         rewrite Forall_forall in IH. apply (IH k Hin). apply (H j k Hj). }
-    set (sub := val_struct_kids_q q (mkids kids) kids 0) in *.
-    assert (Hmain : (if q && qual_class n
+    set (sub := val_struct_kids_q q arity_fix_committed (mkids kids) kids 0) in *.
+    assert (Hmain : (if q && is_qualifier n
                      then match val_node arity_fix_committed pk i n attrs kids sub with [] => sub | _ :: _ => val_node arity_fix_committed pk i n attrs kids sub end
                      else val_node arity_fix_committed pk i n attrs kids sub) = [] <->
                     NodeRule pk i n attrs kids /\ (descends q n -> sub = [])).
-    { unfold NodeRule, descends. destruct (q && qual_class n) eqn:Eq.
+    { unfold NodeRule, descends. destruct (q && is_qualifier n) eqn:Eq.
       - apply andb_true_iff in Eq. destruct Eq as [Hq Hqc]. rewrite (val_node_qual _ _ _ _ _ _ sub Hqc).
-        unfold qual_class in Hqc.
+        unfold is_qualifier in Hqc.
         destruct (val_node arity_fix_committed pk i n attrs kids []) eqn:Er.
         + destruct (vclass_of n); try discriminate Hqc; split; try tauto; intros [_ H]; apply H; exact Hq.
         + split; [intro H; discriminate H | intros [H _]; discriminate H].
       - rewrite val_node_nil. apply andb_false_iff in Eq.
-        destruct (vclass_of n) eqn:Ec; unfold qual_class in Eq; rewrite ?Ec in Eq; try tauto;
+        destruct (vclass_of n) eqn:Ec; unfold is_qualifier in Eq; rewrite ?Ec in Eq; try tauto;
           (destruct Eq as [Eq|Eq]; [subst q; split; [intros [H _]; split; [exact H | intro H0; discriminate H0] | tauto] | discriminate Eq]). }
     rewrite Hmain, Hsub. split.
     + intros [H1 H2]. apply S_elem; assumption.
@@ -213,8 +213,10 @@ Qed.
 Lemma val_math_env_q_nil : forall q vars units root,
   val_math_env_q q vars units root = [] <-> MathDocOK q vars units root.
 Proof.
-  intros. unfold val_math_env_q, MathDocOK. destruct (is_mathml_el "math" root) eqn:E; cbn [negb].
-  - rewrite !app_nil_iff, flat_map_nil_iff, val_cicn_nil, val_struct_kids_q_nil. split.
+  intros. unfold val_math_env_q, val_math_env_gen2, MathDocOK. destruct (is_mathml_el "math" root) eqn:E; cbn [negb].
+  - change ((fix go (ks : list xml) : list rule := match ks with [] => [] | k :: r => val_supported k ++ go r end) (kids_of root))
+      with (flat_map val_supported (kids_of root)).
+    rewrite !app_nil_iff, flat_map_nil_iff, val_cicn_nil, val_struct_kids_q_nil. split.
     + intros [H1 [H2 H3]]. split; [reflexivity|]. split; [|split; [assumption|]].
       * intros k Hk. rewrite Forall_forall in H1. apply val_supported_nil. apply H1. assumption.
       * intros j k Hj. apply val_struct_q_nil. apply (H3 j k Hj).
@@ -238,33 +240,7 @@ Qed.
 
 (* ------------------------------------------------------------------ the tie to C01's transcription *)
 
-Lemma val_struct_q_false : forall x pk i, val_struct_q false pk i x = val_struct arity_fix_committed pk i x.
-Proof.
-  induction x as [ns n attrs kids IH|s|s] using xml_ind3; intros pk i; [|reflexivity|reflexivity].
-  rewrite val_struct_q_elem. cbn [val_struct andb]. destruct (negb (String.eqb ns MATHML_NS)); [reflexivity|]. cbv zeta.
-  f_equal.
-  assert (H : forall ks j, Forall (fun k => forall pk i, val_struct_q false pk i k = val_struct arity_fix_committed pk i k) ks ->
-             val_struct_kids_q false (mkids kids) ks j =
-             (fix go (ks : list xml) (i : nat) {struct ks} : list rule :=
-                match ks with
-                | [] => []
-                | k :: r => if is_mathml k then val_struct arity_fix_committed (mkids kids) i k ++ go r (S i) else go r i
-                end) ks j).
-  { induction ks as [|k r IHr]; intros j HF; [reflexivity|]. inversion HF; subst. cbn [val_struct_kids_q].
-    rewrite H1, !IHr by assumption. reflexivity. }
-  apply H. assumption.
-Qed.
-
-Lemma val_struct_kids_q_false : forall ks mk j,
-  val_struct_kids_q false mk ks j = val_struct_kids arity_fix_committed mk ks j.
-Proof.
-  induction ks as [|k r IH]; intros mk j; [reflexivity|]. cbn [val_struct_kids_q val_struct_kids].
-  rewrite val_struct_q_false, !IH. reflexivity.
-Qed.
-
-Lemma val_math_env_q_false : forall vars units root,
-  val_math_env_q false vars units root = val_math_env vars units root.
-Proof.
-  intros. unfold val_math_env_q, val_math_env, val_math_env_gen. destruct (negb (is_mathml_el "math" root)); [reflexivity|].
-  rewrite val_struct_kids_q_false. reflexivity.
-Qed.
+(** with the qualifier switch in the position MathDefs records for the tree, this IS C01's model of validateMath *)
+Lemma val_math_env_q_c01 : forall vars units root,
+  val_math_env_q qualifier_fix_committed vars units root = val_math_env vars units root.
+Proof. reflexivity. Qed.
